@@ -69,6 +69,21 @@ Qed.
 Definition url_wf (u : url) : Prop :=
   u_raw u = "" \/ (unescape (u_raw u) = Some (u_path u) /\ u_raw u <> escape_path (u_path u)).
 
+(* the same as a boolean, evaluated on every real CSR URL by the correspondence run *)
+Definition url_wfb (u : url) : bool :=
+  (u_raw u =? "")%string ||
+  (match unescape (u_raw u) with Some p => (p =? u_path u)%string | None => false end
+   && negb (u_raw u =? escape_path (u_path u))%string).
+
+Lemma url_wfb_spec u : url_wfb u = true -> url_wf u.
+Proof.
+  unfold url_wfb, url_wf. intros H. apply orb_true_iff in H as [H|H].
+  - left. apply String.eqb_eq. exact H.
+  - right. apply andb_true_iff in H as [H1 H2].
+    destruct (unescape (u_raw u)) as [p|]; [|discriminate]. apply String.eqb_eq in H1. subst p.
+    split; [reflexivity|]. apply String.eqb_neq. apply negb_true_iff. exact H2.
+Qed.
+
 Lemma set_path_wf p path raw : set_path p = Some (path, raw) ->
   forall sch h pl, url_wf (Url sch h path raw pl).
 Proof.
